@@ -385,9 +385,32 @@ class Case:
             handler = "answer"
         h.settle()
         self.w.observe()
-        sp = h.inbound(ip="10.1.0.2", port=51000)
+        # Who probes: a peer the node has not seen yet, or - in half of the cases in which every earlier connection is
+        # gone - the victim itself, come back after the fault, which re-sends what was never answered with the T flag
+        # set (the retransmission RFC 6733 prescribes after a failover). Ground truth of "never answered": the request
+        # reached the application, the application does not answer in this case (handler none), and no answer with
+        # that end-to-end identifier is in anything the node wrote. (Requests the node may have answered itself - an
+        # answer built and queued counts as answered for the node even if the fault kept it off the wire - are left
+        # alone: whether their repeat is a duplicate is C17's question, and the statement there sides with the node.)
+        live = [s for s in h.sockets if s.role in ("accepted", "outbound") and not s.closed]
+        as_victim = (not live and bool(self.used_ids) and not self.spec["scenario"].startswith("out") and
+                     h64("probe-as", repr(sorted(self.spec.items(), key=repr))) % 2 == 0)
+        who = VICTIM if as_victim else PROBE
+        answered = set()
+        for s_ in h.sockets:
+            buf, pos = bytes(getattr(s_, "tx", b"")), 0
+            while pos + 20 <= len(buf):
+                ln = int.from_bytes(buf[pos + 1:pos + 4], "big")
+                if ln < 20 or pos + ln > len(buf):
+                    break
+                if not buf[pos + 4] & 0x80:
+                    answered.add(int.from_bytes(buf[pos + 16:pos + 20], "big"))
+                pos += ln
+        delivered = {(m.header.hop_by_hop_identifier, m.header.end_to_end_identifier)
+                     for m in getattr(self.app, "requests", [])}
+        sp = h.inbound(ip="10.1.0.1" if as_victim else "10.1.0.2", port=51000)
         h.settle()
-        sp.send(M.cer(PROBE, self.REALM, auth=[4], hbh=1, e2e=1))
+        sp.send(M.cer(who, self.REALM, auth=[4], hbh=1, e2e=1))
         h.settle()
         fr = sp.drain()
         if len(fr) != 1 or fr[0].h.code != 257 or fr[0].result_code != 2001:
@@ -412,7 +435,15 @@ class Case:
                 handler = "answer" if i % 2 == 0 else "none"
                 self.beh["v"] = handler
             seen = len(sp.frames)
-            sp.send(M.ccr(PROBE, self.REALM, self.REALM, app=4, hbh=hbh, e2e=e2e, session=f"probe;{i}"))
+            flags = 0xc0
+            if as_victim and i < len(reuse):
+                if e2e not in answered and self.spec["handler"] == "none" and (hbh, e2e) in delivered:
+                    flags = 0xd0
+                    self.run.cov["probe_requests_retransmitted_with_t_flag"] = \
+                        self.run.cov.get("probe_requests_retransmitted_with_t_flag", 0) + 1
+                else:
+                    hbh, e2e = 9000 + i, 0xbb00 + i
+            sp.send(M.ccr(who, self.REALM, self.REALM, app=4, hbh=hbh, e2e=e2e, session=f"probe;{i}", flags=flags))
             h.settle()
             ev = self.w.observe()["events"]
             deliv = [e for e in ev if e["kind"] == "app_request" and (e["hbh"], e["e2e"]) == (hbh, e2e)]
